@@ -69,7 +69,12 @@ theorem table_del_c1' (r : Int) (h1 : 127 ≤ r) (h2 : r ≤ 159) : rwTable r = 
 theorem table_c0 : ∀ k : Fin 32, rwTable (k.val : Int) = 0 := by decide +kernel
 
 /-- zero-width and bidi / format characters that ARE zero width in the table (hence shown as blanks):
-soft hyphen, ZWSP, ZWNJ, ZWJ, LRM, RLM, LRE, RLE, PDF, LRO, RLO, BOM, Mongolian vowel separator, interlinear annotation -/
+soft hyphen, ZWSP, ZWNJ, ZWJ, LRM, RLM, LRE, RLE, PDF, LRO, RLO, BOM, Mongolian vowel separator, interlinear annotation.
+WHY STILL PARTIAL on the current tree: the full statement — every format / default-ignorable character the property names has
+width 0 and is therefore written as a blank — is FALSE for the regenerated table: `format_chars_not_blank` below proves width 1
+for the bidi isolates U+2066–2069, U+061C, U+2060–2064 and the tag characters.  The table is go-runewidth v0.0.16's (the
+dependency pinned by go.mod), not tcell's own code, so no `fix:` commit in /repo changed it; the open finding
+`C09-format-width1` is reproduced on every run by engine `drawcp` (all code points through the strict tokenizer). -/
 theorem table_format_chars_partial :
     ([0xAD, 0x200B, 0x200C, 0x200D, 0x200E, 0x200F, 0x202A, 0x202B, 0x202C, 0x202D, 0x202E, 0xFEFF, 0x180E, 0xFFF9,
       0xFFFA, 0xFFFB, 0x206A, 0x206F] : List Int).all (fun r => rwTable r = 0) = true := by
